@@ -198,7 +198,8 @@ func (c *Collection) _stopFeeds() {
 	for _, feed := range c.bucket.collectionFeeds[c.DataStoreNameImpl] {
 		feed.close()
 	}
-	c.bucket.collectionFeeds = nil
+	// only this collection's feeds are gone; the map is shared by every handle of the bucket
+	delete(c.bucket.collectionFeeds, c.DataStoreNameImpl)
 }
 
 //////// DCPFEED:
